@@ -842,6 +842,170 @@ func reportedTreeKeys(fields map[string]field.Field) string {
 
 func checkC14History(rep *Reporter, c *hcase) {
 	checkPresenceAgree(rep, c)
+	checkPresenceReference(rep, c)
+}
+
+// ----- the reference presence tree: "the fields written since creation or the last Unpack,
+// minus those unset since", computed from the operations alone
+
+type pnode struct {
+	kids map[string]*pnode
+	comp bool
+}
+
+func newPnode() *pnode { return &pnode{kids: map[string]*pnode{}} }
+
+func (n *pnode) clone() *pnode {
+	c := newPnode()
+	c.comp = n.comp
+	for k, v := range n.kids {
+		c.kids[k] = v.clone()
+	}
+	return c
+}
+
+func (n *pnode) String() string {
+	keys := make([]string, 0, len(n.kids))
+	for k := range n.kids {
+		keys = append(keys, k)
+	}
+	sort.Strings(keys)
+	parts := make([]string, len(keys))
+	for i, k := range keys {
+		parts[i] = k
+		if n.kids[k].kids != nil && n.kids[k].comp {
+			parts[i] += "(" + n.kids[k].String() + ")"
+		}
+	}
+	return strings.Join(parts, ",")
+}
+
+// what the implementation reports, as a pnode (used as the new baseline after Unpack / SetBytes)
+func pnodeOfFields(fields map[string]field.Field) *pnode {
+	n := newPnode()
+	for k, f := range fields {
+		if c, ok := f.(*field.Composite); ok {
+			n.kids[k] = pnodeOfFields(c.GetSubfields())
+			n.kids[k].comp = true
+		} else {
+			n.kids[k] = newPnode()
+		}
+	}
+	return n
+}
+
+// merge the members of a value tree (a write adds to what is there)
+func (n *pnode) write(key string, v *impl.Tree) {
+	child := n.kids[key]
+	if v.Name == "c" || v.Name == "c()" {
+		if child == nil || !child.comp {
+			child = newPnode()
+			child.comp = true
+		}
+		for _, kv := range v.Kids {
+			if kv.Name == "kv" && len(kv.Kids) == 2 {
+				child.write(kv.Kids[0].Name, kv.Kids[1])
+			}
+		}
+	} else {
+		child = newPnode()
+	}
+	n.kids[key] = child
+}
+
+// unset by path: the node named by the whole path goes away if every node on the way is present
+func (n *pnode) unset(path []string) {
+	cur := n
+	for i, k := range path {
+		next, ok := cur.kids[k]
+		if !ok {
+			return
+		}
+		if i == len(path)-1 {
+			delete(cur.kids, k)
+			return
+		}
+		cur = next
+	}
+}
+
+// checkPresenceReference walks the history once: after every operation that succeeded, what
+// GetFields / GetSubfields report must be the reference tree. Histories in which an operation
+// fails are left to the other checks (a failing decode may stop half-way: KF11).
+func checkPresenceReference(rep *Reporter, c *hcase) {
+	line := c.line(c.ops, "")
+	safely(rep, line, func() {
+		st := &impl.HState{Cur: iso8583.NewMessage(c.spec)}
+		ref := newPnode()
+		ref.kids["1"] = newPnode()
+		var otherRef *pnode
+		for k, op := range c.ops {
+			res := impl.ApplyOp(st, op)
+			if res == "err" || res == "panic" || res == "bad-op" || res == "noswap" {
+				return
+			}
+			p := strings.Split(op, ":")
+			switch p[0] {
+			case "mti":
+				ref.kids["0"] = newPnode()
+			case "set":
+				if _, isComp := c.spec.Fields[atoi(p[1])].(*field.Composite); isComp {
+					if f, ok := st.Cur.GetFields()[atoi(p[1])].(*field.Composite); ok {
+						n := pnodeOfFields(f.GetSubfields()) // SetBytes replaces the composite's content
+						n.comp = true
+						ref.kids[p[1]] = n
+					}
+				} else {
+					ref.kids[p[1]] = newPnode()
+				}
+			case "mar":
+				if v, ok := impl.ParseTree(strings.SplitN(op, ":", 3)[2]); ok {
+					ref.write(p[1], v)
+				}
+			case "jd":
+				if d, ok := impl.ParseTree(strings.SplitN(op, ":", 2)[1]); ok {
+					for _, f := range d.Kids {
+						if f.Name == "f" && len(f.Kids) == 2 {
+							if f.Kids[0].Name == "1" {
+								continue
+							}
+							ref.write(f.Kids[0].Name, f.Kids[1])
+						}
+					}
+				}
+			case "upk":
+				ref = pnodeOfFields(msgFieldsByName(st.Cur)) // the new baseline
+			case "unf":
+				if p[1] != "1" {
+					ref.unset([]string{p[1]})
+				}
+			case "ups", "upm", "usb":
+				for i := 1; i+1 < len(p); i += 2 {
+					b, _ := impl.UnHex(p[i+1])
+					path := []string{p[i]}
+					if len(b) > 0 {
+						path = append(path, strings.Split(string(b), ".")...)
+					}
+					if len(path) == 1 && path[0] == "1" {
+						continue
+					}
+					ref.unset(path)
+				}
+			case "clone":
+				otherRef, ref = ref, ref.clone()
+			case "swap":
+				ref, otherRef = otherRef, ref
+			}
+			got := reportedTree(msgFieldsByName(st.Cur))
+			if got != ref.String() {
+				rep.Case(line)
+				rep.Viol("GetFields / GetSubfields do not report the fields written since creation or the last Unpack minus those unset since", c.line(c.ops[:k+1], ""),
+					fmt.Sprintf("after op %d (%s): reported [%s], written-minus-unset [%s]", k+1, op, got, ref.String()))
+				return
+			}
+		}
+		rep.Case(line)
+	})
 }
 
 // subtree of a value tree at a tag path ("" if absent)
